@@ -9,7 +9,7 @@ PROP = "C02"
 SHADOW = False
 EXPECT_PROBES = ["diff:pw", "diff:ids", "diff:pset", "altered-one", "altered-both", "coordinated"]
 
-COORD_SUFFIX = ["dup", "dst_body", "zero", "rand"]
+COORD_SUFFIX = ["dup", "dst_body", "zero", "rand", "framing"]
 
 
 def near_miss(rng, v):
@@ -236,8 +236,9 @@ def generate(rng, tier="quick"):
             # both messages extended with suffixes drawn from a small alphabet
             seed = rng.randrange(1 << 16)
             n = rng.choice([0, 0, esize, 1])
-            f10 = {"kind": "extend", "with": rng.choice(COORD_SUFFIX), "n": n, "seed": seed, "coord": True}
-            f01 = {"kind": "extend", "with": rng.choice(COORD_SUFFIX), "n": n, "seed": seed, "coord": True}
+            tail = rng.randrange(len(faults.FRAMING_TAILS))
+            f10 = {"kind": "extend", "with": rng.choice(COORD_SUFFIX), "n": n, "seed": seed, "coord": True, "tail": tail}
+            f01 = {"kind": "extend", "with": rng.choice(COORD_SUFFIX), "n": n, "seed": seed, "coord": True, "tail": tail}
         elif c == 1:
             n = rng.randrange(0, esize + 1)
             f10 = {"kind": "truncate", "n": n, "coord": True}
